@@ -6,16 +6,21 @@ Lemma norm_act_nonempty a : norm_act a <> A_EMPTY.
 Proof. unfold norm_act, A_EMPTY, A_DEFAULT. destruct (Nat.eqb a 0) eqn:E; [discriminate|].
   apply Nat.eqb_neq in E. exact E. Qed.
 
-(* s' extends s: the log grows by a suffix and the context is never un-cancelled *)
+(* s' extends s: the log grows by a suffix, and the context is cancelled afterwards exactly
+   when it was cancelled before or one of the new events cancelled it *)
 Definition ext (s s' : ms) : Prop :=
-  (exists evs, log s' = log s ++ evs) /\ (cancelled s = true -> cancelled s' = true).
+  exists evs, log s' = log s ++ evs /\ cancelled s' = cancelled s || existsb ev_cancel evs.
 
 Lemma ext_refl s : ext s s.
-Proof. split; [exists []; now rewrite app_nil_r | auto]. Qed.
+Proof. exists []. cbn. now rewrite app_nil_r, orb_false_r. Qed.
 
 Lemma ext_trans a b c : ext a b -> ext b c -> ext a c.
-Proof. intros [[e1 H1] C1] [[e2 H2] C2]. split; [|auto].
-  exists (e1 ++ e2). now rewrite H2, H1, app_assoc. Qed.
+Proof. intros [e1 [H1 C1]] [e2 [H2 C2]]. exists (e1 ++ e2). split.
+  - now rewrite H2, H1, app_assoc.
+  - now rewrite C2, C1, existsb_app, orb_assoc. Qed.
+
+Lemma ext_cancelled s s' : ext s s' -> cancelled s = true -> cancelled s' = true.
+Proof. intros [e [_ C]] H. now rewrite C, H. Qed.
 
 Lemma emit_spec o s c s' r :
   emit o s c = (s', r) ->
@@ -28,9 +33,8 @@ Qed.
 
 Lemma emit_ext o s c s' r : emit o s c = (s', r) -> ext s s'.
 Proof.
-  intros H. apply emit_spec in H. destruct H as [cn [_ [L C]]]. split.
-  - eexists; eauto.
-  - intros Hc. now rewrite C, Hc.
+  intros H. apply emit_spec in H. destruct H as [cn [_ [L C]]]. eexists. split; [exact L|].
+  cbn. now rewrite orb_false_r.
 Qed.
 
 Ltac inv H := inversion H; subst; clear H.
@@ -81,17 +85,17 @@ Proof.
     step_in H; inv H; eapply emit_ext; eauto.
 Qed.
 
-Lemma attempts_ext c n w k : forall i s p last s' r,
-    attempts o c n w k i s p last = (s', r) -> ext s s'.
+Lemma retry_loop_ext sr sw wi c n w k : forall i s p last s' r,
+    retry_loop o sr sw wi c n w k i s p last = (s', r) -> ext s s'.
 Proof.
-  induction k as [|k IH]; intros i s p last s' r H; cbn [attempts] in H.
+  induction k as [|k IH]; intros i s p last s' r H; cbn [retry_loop] in H.
   - inv H. apply ext_refl.
   - destruct (cancelled s) eqn:Hc; [inv H; apply ext_refl|].
     destruct (Nat.ltb 0 i && Nat.ltb 0 w).
-    + destruct (emit o s (CWait n 0 i)) as [sw rw] eqn:Ew.
+    + destruct (emit o s (CWait n wi i)) as [sw' rw] eqn:Ew.
       apply emit_ext in Ew.
-      destruct (cancelled sw); [inv H; exact Ew|].
-      destruct (node_exec o c n sw p) as [s2 [x|e]] eqn:Ex; apply node_exec_ext in Ex.
+      destruct (cancelled sw'); [inv H; exact Ew|].
+      destruct (node_exec o c n sw' p) as [s2 [x|e]] eqn:Ex; apply node_exec_ext in Ex.
       * inv H. eapply ext_trans; eauto.
       * apply IH in H. eapply ext_trans; [|exact H]. eapply ext_trans; eauto.
     + destruct (node_exec o c n s p) as [s2 [x|e]] eqn:Ex; apply node_exec_ext in Ex.
@@ -99,24 +103,13 @@ Proof.
       * apply IH in H. eapply ext_trans; eauto.
 Qed.
 
+Lemma attempts_ext c n w k : forall i s p last s' r,
+    attempts o c n w k i s p last = (s', r) -> ext s s'.
+Proof. unfold attempts. intros. eapply retry_loop_ext; eauto. Qed.
+
 Lemma item_attempts_ext c n w k : forall i s p last s' r,
     item_attempts o c n w k i s p last = (s', r) -> ext s s'.
-Proof.
-  induction k as [|k IH]; intros i s p last s' r H; cbn [item_attempts] in H.
-  - inv H. apply ext_refl.
-  - destruct (cancelled s) eqn:Hc; [inv H; apply ext_refl|].
-    destruct (Nat.ltb 0 i && Nat.ltb 0 w).
-    + match type of H with context [emit o s ?c] =>
-        destruct (emit o s c) as [sw rw] eqn:Ew end.
-      apply emit_ext in Ew.
-      destruct (cancelled sw); [inv H; exact Ew|].
-      destruct (node_exec o c n sw p) as [s2 [x|e]] eqn:Ex; apply node_exec_ext in Ex.
-      * inv H. eapply ext_trans; eauto.
-      * apply IH in H. eapply ext_trans; [|exact H]. eapply ext_trans; eauto.
-    + destruct (node_exec o c n s p) as [s2 [x|e]] eqn:Ex; apply node_exec_ext in Ex.
-      * inv H. exact Ex.
-      * apply IH in H. eapply ext_trans; eauto.
-Qed.
+Proof. unfold item_attempts. intros. eapply retry_loop_ext; eauto. Qed.
 
 Lemma exec_with_retries_ext c n s item s' r :
   exec_with_retries o c n s item = (s', r) -> ext s s'.
